@@ -623,6 +623,9 @@ func genCases(r *vf.Run) []any {
 
 func main() {
 	if batch.IsChild() {
+		// no FSM ever ceases in this workload, so a barrier that is late on a closed connection is a stalled
+		// machine, not an ended FSM: wait for it
+		speaker.CeaseGrace = 5 * time.Second
 		batch.ChildMain(runCase)
 		return
 	}
